@@ -40,6 +40,10 @@ def req_lines(s):
     return 'lines ' + enc_str(s)
 
 
+def req_lines_drop(s):
+    return 'linesdrop ' + enc_str(s)
+
+
 def req_tok(v, lines, start=(1, 0), indents=None, first=True):
     inds = indents if indents is not None else [0]
     return 'tok %s %d %d %d %d %s %d %s' % (vn(v), start[0], start[1], int(first), len(inds), ' '.join(map(str, inds)),
@@ -65,6 +69,10 @@ def req_re(v, pid, pos, s):
 # ---- implementation answers -----------------------------------------------
 def ans_lines(s):
     return '|'.join(cps(l) for l in split_lines(s, keepends=True))
+
+
+def ans_lines_drop(s):
+    return '|'.join(cps(l) for l in split_lines(s))
 
 
 def show_tokens(toks):
